@@ -16,6 +16,7 @@ RULE = ("each local grid family (Trapezoidal boundary on/off, Simpson, Clenshaw-
         "trapezoid family boundary-off = boundary-on minus exactly the points on the global boundary. distinct = digest(family, "
         "levels, box); non-trivial = sub-box != domain or anisotropic level vector")
 RULE += (" " + 'The grid object carries a history of 0..3 earlier setCurrentArea/get_points_and_weights calls on other boxes (incl. boxes glued to the global boundary), as the strategies reuse one object.')
+RULE += (" Trapezoidal grids are also run with per-dimension boundary flags (set_boundaries) on a grid object that is used twice.")
 REQUIRED = ["count_matches", "points_inside", "weight_sum_is_volume", "polynomial_exactness", "trapezoid_boundary_off_consistent"]
 MIN_NONTRIVIAL = {"quick": 800, "thorough": 10000}
 CHUNK = {"quick": 120, "thorough": 1000}
@@ -211,6 +212,31 @@ def run_case(case, res):
                       len(don), len(doff), len(expected)),
                   dict(cfg, extra=sorted(set(doff) - set(expected))[:4], missing=sorted(set(expected) - set(doff))[:4],
                        weight_diff=[(q, doff[q], expected[q]) for q in doff if q in expected and doff[q] != expected[q]][:4]))
+        if d >= 2 and rng.random() < 0.6:
+            # per-dimension boundary flags (Grid.set_boundaries) on ONE grid object that is used twice
+            flags = [rng.random() < 0.5 for _ in range(d)]
+            flags[0], flags[1] = (True, False) if rng.random() < 0.5 else (False, True)
+            gmix = make_grid("Trapezoidal", a, b, p)
+            gmix.set_boundaries(flags)
+            try:
+                ps_, pe_ = subbox(rng, a, b)
+                gmix.setCurrentArea(np.array(ps_), np.array(pe_), [max(1, x) for x in lv])
+                gmix.get_points_and_weights()
+            except Exception:
+                pass
+            lvm = [max(1, x) for x in lv]
+            gon.setCurrentArea(np.array(s), np.array(e), lvm)
+            pon, won = gon.get_points_and_weights()
+            don = {tuple(float(x) for x in q): float(ww) for q, ww in zip(pon, won)}
+            gmix.setCurrentArea(np.array(s), np.array(e), lvm)
+            pm, wm = gmix.get_points_and_weights()
+            dm = {tuple(float(x) for x in q): float(ww) for q, ww in zip(pm, wm)}
+            expm = {q: ww for q, ww in don.items() if not any((not flags[k]) and (q[k] == a[k] or q[k] == b[k]) for k in range(d))}
+            announced_m = int(np.prod([int(x) for x in gmix.levelToNumPoints(lvm)]))
+            res.check("per_dimension_boundary_flags", dm == expm and len(pm) == len(dm) == announced_m and list(gmix.get_boundaries()) == flags,
+                      "C08_trapezoid_per_dimension_flags",
+                      "per-dimension boundary flags %s (second use of the grid object): %d points returned, %d announced, %d expected; flags now %s" % (
+                          flags, len(pm), announced_m, len(expm), list(gmix.get_boundaries())), dict(cfg, flags=flags))
     res.hash = digest(cfg)
     res.nontrivial = (s != list(a) or e != list(b)) or len(set(lv)) > 1
     res.states.add(family + str(lv))
